@@ -377,8 +377,31 @@ def byte_align(prog):
             prog.items[i] = ('data', (it[1] + 7) // 8 * 8, it[2])
 
 
+def has_const_cycle(prog):
+    """a constant defined (directly or through other constants) in terms of itself has no unique value: whether such
+    a program assembles, and to what, depends on the guesses of early passes (not this property's subject)"""
+    deps = {it[1]: set(IDENT.findall(it[2])) for it in prog.items if it[0] == 'const'}
+    for start in deps:
+        seen, stack = set(), [start]
+        while stack:
+            n = stack.pop()
+            for d in deps.get(n, ()):
+                if d == start:
+                    return True
+                if d in deps and d not in seen:
+                    seen.add(d); stack.append(d)
+    return False
+
+
+def gen_base(rng, size_static):
+    while True:
+        prog = asm_gen.gen_prog(rng, size_static=size_static, collide=False, boundary=False, tame=True)
+        if not has_const_cycle(prog):
+            return prog
+
+
 def gen_macro_case(rng, size_static=True):
-    prog = asm_gen.gen_prog(rng, size_static=size_static, collide=False, boundary=False, tame=True)
+    prog = gen_base(rng, size_static)
     byte_align(prog)
     _, first_macro = extend_with_macros(rng, prog)
     add_macro_calls(rng, prog, first_macro)
@@ -508,7 +531,7 @@ PARAM_POOL = ['pa', 'pb', 'pc', 'value', 'arg1']
 
 def gen_fn_case(rng):
     """-> (text with calls, text with calls substituted, Prog of the substituted program, feature set)"""
-    prog = asm_gen.gen_prog(rng, size_static=True, collide=False, boundary=False, tame=True)
+    prog = gen_base(rng, True)
     byte_align(prog)
     # arguments are evaluated before the call whether or not the body reads them, so they must be total: only symbols
     # that are certainly integers (labels, constants defined by plain arithmetic)
@@ -590,7 +613,9 @@ def gen_fn_case(rng):
                 if o[0] == 'reg':
                     continue
                 if o[0] == 'expr' and not used:
-                    ac.append(tc); ae.append(te); used = True
+                    # one more pair of parentheses on BOTH sides: `f()` and `(body)` would otherwise differ in which
+                    # patterns with literal parentheses they can match
+                    ac.append('(' + tc + ')'); ae.append('(' + te + ')'); used = True
                 else:
                     a = gen_arg(rng, prog, o, syms)
                     ac.append(a); ae.append(a)
